@@ -527,7 +527,7 @@ def kernel_validation(ctx, cases):
         if [norm(x) for x in emu] == [norm(x) for x in real]:
             same += 1
         else:
-            ctx.notes.append(f"kernel validation: emulated and real kernel differ on {c10.__name__}: {case} emu={emu} real={real}"[:1500])
+            ctx.notes.append(f"kernel validation: emulated and real kernel differ: {case} emu={emu} real={real}"[:1500])
             ctx.broken.append("emulated kernel disagrees with the real kernel")
     ctx.extra["kernel_validation"] = {"sequences_on_real_kernel": done, "agree_with_emulation": same}
 
@@ -615,10 +615,12 @@ LEVEL_TEXT = ("Lean 4 proofs over a hand-written model: Structure members occupy
               "string (induction over the member list); key and value images on the stack are disjoint; hash variables with distinct ordinals are "
               "independent 8-byte cells holding their default after load and carrying a value unchanged in both directions; every sequence of Python "
               "and program operations on a Dict (set/get/del/iteration, update with flags, lookup, modify in place) refines the abstract dictionary over "
-              "member tuples (induction over the operation list), absent keys take the Else branch. pop() (does not delete), iteration of an empty Dict "
-              "and fixed-point hash variables from Python are proven NOT to refine (concrete witnesses). Tie: exact correspondence of offsets and of every "
+              "member tuples (induction over the operation list; pop deletes because the regenerated command is LOOKUP_AND_DELETE), absent keys take the "
+              "Else branch. Iteration of an empty Dict and fixed-point hash variables from Python are proven NOT to behave so (concrete witnesses; known "
+              "findings iter-empty, hashvar-fixed). Tie: exact correspondence of offsets and of every "
               "outcome with the real classes and the real generated program run in the interpreter over an emulated kernel shared with the Python side.")
-LEVEL_NOTE = ("trusted: Lean kernel + standard axioms; hand model validated by differential runs; hash-map helper semantics and the emulated kernel "
-              "modelled (thorough tier validates them against the real kernel where bpf() works); program operands assumed to fit the format")
+LEVEL_NOTE = ("trusted: Lean kernel + standard axioms (one non-vacuity example uses decide +kernel); hand model validated by differential runs; hash-map "
+              "helper semantics and the emulated kernel modelled (thorough tier validates them against the real kernel where bpf() works: real program "
+              "load + BPF_PROG_TEST_RUN); program operands assumed to fit the format; refinement is `_partial`: iterating an empty Dict is excluded")
 TECHNIQUE = "Lean 4 induction over member lists and operation lists (refinement to an abstract finite map) + differential correspondence through the real generated program"
 DESIGN_REF = "§4 C09"
